@@ -203,6 +203,12 @@ func (e *Exec) appendOp(s *Slice, more Value, call *ssa.CallCommon) Value {
 	} else if elemT != nil {
 		bytesMode = isByteType(elemT)
 	}
+	if s.Obj == nil && !srcLen.IsConst() {
+		// appending nothing to a nil slice yields nil (no allocation): matters for x == nil tests
+		if e.branch(tb.Eq(srcLen, e.c64(0)), false) {
+			return s
+		}
+	}
 	newLen := tb.Add(s.Len, srcLen)
 	inPlace := false
 	if s.Obj != nil {
